@@ -57,6 +57,8 @@ def toks(n, out):
         out.append(s)
     elif k == "v":
         out.append("@" + n[1] + "".join("." + q for q in (n[2] if len(n) > 2 else [])))
+    elif k == "r":
+        out.append("$" + n[1])
     elif k == "t":
         v = n[1]
         if n[2] == "str":
@@ -87,6 +89,8 @@ def expected(n):
         return ["Header", str(n[1]), list(n[2] if len(n) > 2 else [])]
     if k == "v":
         return ["Variable", n[1], list(n[2] if len(n) > 2 else [])]
+    if k == "r":
+        return ["Reference", n[1]]
     if k == "t":
         v, ty = n[1], n[2]
         if ty == "int":
@@ -166,6 +170,12 @@ def kinds():
     for l in [hs[0], fn("last", ["nocontrib"]), ["==", hs[0], ts[0]], fn("not", [], [H])]:
         for r in [fn("print", [], [["t", "hi $.csvpath.line_number", "str"]]), fn("stop"), ["=", ["v", "z"], ts[3]], ["=", ["v", "z", ["onmatch"]], fn("count")]]:
             out.append(["->", l, r])
+    refs = [["r", "g.variables.x"], ["r", "g.variables.x.k"], ["r", "g.headers.a"], ["r", "my-group.variables.v_1"]]
+    for r in refs:
+        out.append(["=", ["v", "y"], r])
+        out.append(["==", hs[0], r])
+        out.append(fn("in", [], [H, r]))
+        out.append(["->", r, fn("stop")])
     for t in ts:
         out.append(fn("push", [], [["t", "s", "str"], t]))
         out.append(fn("regex", [], [t, H]) if t[2] == "regex" else fn("in", [], [H, t]))
@@ -249,7 +259,7 @@ def dump(m):
     if isinstance(m, Term):
         return ["Term", m.value, type(m.value).__name__]
     if isinstance(m, Reference):
-        return ["Reference", m.name]
+        return ["Reference", ".".join(m.name_parts)]
     return ["?", type(m).__name__]
 
 
